@@ -63,12 +63,18 @@ def src_hash(paths):
 # --------------------------------------------------------------------------------------
 # build
 def generate():
-    """Regenerate coq/Gen/*.v from /repo's working tree (translator tie). Returns (ok, log)."""
-    gen = os.path.join(HOME, "tools", "gen.py")
-    if not os.path.exists(gen) or not os.path.exists(os.path.join(HOME, "tools", "GEN_ENABLED")):
+    """Regenerate coq/Gen/*.v from /repo's working tree (translator tie): every script listed in tools/GENERATORS.
+    Each script rewrites its output only when the content changed (keeps make incremental) and exits non-zero
+    when it cannot translate what it finds (fail-closed). Returns (ok, log)."""
+    lst = os.path.join(HOME, "tools", "GENERATORS")
+    if not os.path.exists(lst):
         return True, ""
-    rc, out = sh(f"/venv/bin/python {gen}", cwd=HOME, timeout=300)
-    return rc == 0, out
+    ok, log = True, ""
+    for name in [l.strip() for l in open(lst) if l.strip() and not l.startswith("#")]:
+        rc, out = sh(f"/venv/bin/python {os.path.join(HOME, 'tools', name)}", cwd=HOME, timeout=300)
+        log += out[-1500:]
+        ok = ok and rc == 0
+    return ok, log
 
 
 def build(targets=None):
